@@ -351,6 +351,10 @@ func c12(c *core.Ctx) {
 			c.Sample(map[string]interface{}{"section": "many-in-flight", "transactions": n, "fallback_handler": i%2 == 0})
 		}
 	})
+	c.Section("idle-read-errors", 4, func(i int64, _ *gen.Rand) {
+		targetedIdleReadErrors(c, []int{3, 999, 1000, 2500}[i])
+		c.Distinct(uint64(i) | 21<<50)
+	})
 	c.Section("sequential-churn", c.N(16, 3000), func(_ int64, r *gen.Rand) {
 		c12Churn(c, r, 2000)
 		c.Distinct(r.U64())
